@@ -167,7 +167,10 @@ func (s *server) SyncPart(stream clusterv1.ChunkedSyncService_SyncPartServer) er
 
 		sessionID = req.SessionId
 
-		if req.GetMetadata() != nil {
+		// A metadata-bearing chunk starts a session. A repeated first chunk of the session that
+		// is already in progress is an ordinary duplicate and must not restart it: the restarted
+		// session would hold only that chunk and be installed incomplete at completion.
+		if req.GetMetadata() != nil && (currentSession == nil || currentSession.sessionID != sessionID) {
 			currentSession = s.startOrSwitchSession(sessionID, req, currentSession)
 		}
 
